@@ -627,10 +627,9 @@ def histories(ctx, res, rng, stats):
         for t in itertools.product(ALPHABET, repeat=3):
             seqs.append([(rng.choice(['parse', 'eval']), s, None) for s in t])
     if ctx['tier'] == 'thorough':
-        # every quadruple of strings, two parse/evaluate patterns drawn per quadruple
+        # every quadruple of strings, the parse/evaluate pattern drawn per quadruple
         for t in itertools.product(ALPHABET, repeat=4):
-            for _ in range(2):
-                seqs.append([(rng.choice(['parse', 'eval']), s, None) for s in t])
+            seqs.append([(rng.choice(['parse', 'eval']), s, None) for s in t])
     results = run_many(seqs)
     seqs, results = drop_unobserved(seqs, results, stats)
     check_histories(res, seqs, results, stats)
@@ -1213,9 +1212,9 @@ def run(ctx):
     res.distribution = {
         'exhaustive_sequences': stats.get('exhaustive_sequences'),
         'exhaustive_scope': ('all call sequences of length <= 2 over %d calls; ' % (len(alphabet_calls()) + len(EXTRA_CALLS))) +
-                            ('all 24^3 call triples' if stats.get('exhaustive_len3_full') else
-                             'all 12^3 string triples with a drawn parse/evaluate pattern') +
-                            ('; all 12^4 string quadruples with two drawn patterns each' if ctx['tier'] == 'thorough' else ''),
+                            ('all %d^3 call triples' % len(alphabet_calls()) if stats.get('exhaustive_len3_full') else
+                             'all %d^3 string triples with a drawn parse/evaluate pattern' % len(ALPHABET)) +
+                            ('; all %d^4 string quadruples with a drawn pattern each' % len(ALPHABET) if ctx['tier'] == 'thorough' else ''),
         'sequences_not_observed_within_300s': stats.get('sequences_not_observed_within_300s', 0),
         'alphabet': [a if len(a) < 60 else a[:14] + '...(%d levels)...' % NEST + a[-4:] for a in ALPHABET], 'calls_in_alphabet': len(alphabet_calls()) + len(EXTRA_CALLS),
         'random_sequences': stats.get('random_sequences'), 'random_calls': stats.get('random_calls'),
